@@ -12,28 +12,28 @@ Ltac2 Set Whnf.is_blocked as old := fun c =>
                                        (Ltac2.Constr.equal c '@Angle_to_positive)).
 
 (* formulas (radians) *)
-Definition hor_azi (h d p : R) : R := atan2 (sin h) (cos h * sin p - tan d * cos p).
-Definition hor_ele (h d p : R) : R := asin (sin p * sin d + cos p * cos d * cos h).
-Definition equ_ha (az el p : R) : R := atan2 (sin az) (cos az * sin p + tan el * cos p).
-Definition equ_dec_h (az el p : R) : R := asin (sin p * sin el - cos p * cos el * cos az).
+Definition hor_x (h d p : R) : R := cos h * sin p - tan d * cos p.
+Definition hor_azi (h d p : R) : R := atan2 (sin h) (hor_x h d p).
+Definition hor_ele (h d p : R) : R :=
+  atan2 (sin p * sin d + cos p * cos d * cos h)
+        (Rabs (cos d) * sqrt (hor_x h d p * hor_x h d p + sin h * sin h)).
+Definition equ_x (az el p : R) : R := cos az * sin p + tan el * cos p.
+Definition equ_ha (az el p : R) : R := atan2 (sin az) (equ_x az el p).
+Definition equ_dec_h (az el p : R) : R :=
+  atan2 (sin p * sin el - cos p * cos el * cos az)
+        (Rabs (cos el) * sqrt (equ_x az el p * equ_x az el p + sin az * sin az)).
 
 Lemma eq2hor_closed (ha de ph : R) :
   f_equatorial2horizontal Rops (ang ha) (ang de) (ang ph) =
   VTuple [ang (r2d (hor_azi (d2r ha) (d2r de) (d2r ph)));
           ang (r2d (hor_ele (d2r ha) (d2r de) (d2r ph)))].
-Proof.
-  pose proof (zr_plus_cos (ph * (PI / 180)) (de * (PI / 180)) (ha * (PI / 180))) as Hz.
-  c05run. reflexivity.
-Qed.
+Proof. crun. reflexivity. Qed.
 
 Lemma hor2eq_closed (az el ph : R) :
   f_horizontal2equatorial Rops (ang az) (ang el) (ang ph) =
   VTuple [ang (r2d (equ_ha (d2r az) (d2r el) (d2r ph)));
           ang (r2d (equ_dec_h (d2r az) (d2r el) (d2r ph)))].
-Proof.
-  pose proof (zr_minus_cos (ph * (PI / 180)) (el * (PI / 180)) (az * (PI / 180))) as Hz.
-  c05run. reflexivity.
-Qed.
+Proof. crun. reflexivity. Qed.
 
 (* rotation about the y axis that takes the celestial pole (latitude p) to the zenith *)
 Definition Rhor (p : R) (v : vec) : vec := Ry (p - PI / 2) v.
@@ -58,13 +58,13 @@ Lemma hor_formula_rot h d p : 0 < cos d ->
 Proof.
   intros Hd.
   assert (E : Rhor p (uvec h d) =
-              (cos d * (cos h * sin p - tan d * cos p), cos d * sin h,
+              (cos d * hor_x h d p, cos d * sin h,
                sin p * sin d + cos p * cos d * cos h)).
-  { unfold Rhor, Ry, uvec. rewrite cos_m_PI2, sin_m_PI2. apply vec_eq; unfold tan; field; lra. }
+  { unfold Rhor, Ry, uvec, hor_x. rewrite cos_m_PI2, sin_m_PI2. apply vec_eq; unfold tan; field; lra. }
   assert (N : dot (Rhor p (uvec h d)) (Rhor p (uvec h d)) = 1)
     by (rewrite dot_Rhor; apply uvec_norm).
-  rewrite E in *. unfold dot in N. unfold hor_azi, hor_ele.
-  apply lonlat_scaled with (k := cos d); [assumption | reflexivity | reflexivity | exact N].
+  rewrite E in *. unfold dot in N. unfold hor_azi, hor_ele. rewrite (Rabs_right (cos d)) by lra.
+  apply lonlat_scaled2; [assumption | reflexivity | reflexivity | exact N].
 Qed.
 
 Lemma equ_h_formula_rot az el p : 0 < cos el ->
@@ -72,13 +72,13 @@ Lemma equ_h_formula_rot az el p : 0 < cos el ->
 Proof.
   intros Hd.
   assert (E : Rhor_inv p (uvec az el) =
-              (cos el * (cos az * sin p + tan el * cos p), cos el * sin az,
+              (cos el * equ_x az el p, cos el * sin az,
                sin p * sin el - cos p * cos el * cos az)).
-  { unfold Rhor_inv, Ry, uvec. rewrite cos_shift, sin_shift. apply vec_eq; unfold tan; field; lra. }
+  { unfold Rhor_inv, Ry, uvec, equ_x. rewrite cos_shift, sin_shift. apply vec_eq; unfold tan; field; lra. }
   assert (N : dot (Rhor_inv p (uvec az el)) (Rhor_inv p (uvec az el)) = 1)
     by (rewrite dot_Rhor_inv; apply uvec_norm).
-  rewrite E in *. unfold dot in N. unfold equ_ha, equ_dec_h.
-  apply lonlat_scaled with (k := cos el); [assumption | reflexivity | reflexivity | exact N].
+  rewrite E in *. unfold dot in N. unfold equ_ha, equ_dec_h. rewrite (Rabs_right (cos el)) by lra.
+  apply lonlat_scaled2; [assumption | reflexivity | reflexivity | exact N].
 Qed.
 
 Theorem eq2hor_rotation ha de ph : -90 < de < 90 ->
@@ -89,7 +89,7 @@ Proof.
   intros Hde. eexists. eexists. split; [apply eq2hor_closed |]. split; [| split].
   - rewrite !d2r_r2d. apply hor_formula_rot. now apply cos_d2r_pos.
   - apply r2d_atan2_range.
-  - apply asin_range_deg.
+  - apply r2d_atan2_nonneg_range, abs_sqrt_nonneg.
 Qed.
 
 Theorem hor2eq_rotation az el ph : -90 < el < 90 ->
@@ -100,7 +100,7 @@ Proof.
   intros Hel. eexists. eexists. split; [apply hor2eq_closed |]. split; [| split].
   - rewrite !d2r_r2d. apply equ_h_formula_rot. now apply cos_d2r_pos.
   - apply r2d_atan2_range.
-  - apply asin_range_deg.
+  - apply r2d_atan2_nonneg_range, abs_sqrt_nonneg.
 Qed.
 
 Theorem hor_roundtrip ha de ph az el : -180 < ha <= 180 -> -90 < de < 90 ->
